@@ -332,72 +332,27 @@ func bottomK[K nodeKey, V any](t Tree[K, V], k uint) iter.Seq2[K, V] {
 }
 
 func lowestCommonParent[V any, L nodeLeaf[V]](root nodeRef, prefix []byte) nodeRef {
-	var q []nodeRef
-
+	n := root
 	depth := 0
-	q = append(q, root)
-	for len(q) != 0 {
-		n := q[len(q)-1]
-		q = q[:len(q)-1]
 
+	// follow the one path the prefix bytes select, every key that starts
+	// with prefix lives below the deepest node reached this way
+	for n.tag != nodeKindLeaf {
 		idx := prefixMismatch[V, L](n, prefix, depth)
-		if idx == 0 { // no match
-			continue
+		depth += idx
+
+		if depth >= len(prefix) || idx < int(n.node().prefixLen) {
+			break // prefix ends in (or diverges from) this compressed path
 		}
 
-		if idx < min(len(prefix)-depth, maxPrefixLen) {
-			root = n
+		child := n.findChild(prefix[depth])
+		if child == nil || child.tag == nodeKindLeaf {
 			break
 		}
 
-		switch n.tag {
-		case nodeKind4:
-			n4 := (*node4)(n.pointer)
-
-			for i := int(n4.childrenLen) - 1; i >= 0; i-- {
-				if n4.children[i].tag == nodeKindLeaf {
-					continue
-				}
-				q = append(q, n4.children[i])
-			}
-
-		case nodeKind16:
-			n16 := (*node16)(n.pointer)
-
-			for i := int(n16.childrenLen) - 1; i >= 0; i-- {
-				if n16.children[i].tag == nodeKindLeaf {
-					continue
-				}
-				q = append(q, n16.children[i])
-			}
-
-		case nodeKind48:
-			n48 := (*node48)(n.pointer)
-
-			for i := 255; i >= 0; i-- {
-				idx := n48.keys[i]
-				if idx == 0 || n48.children[i].tag == nodeKindLeaf {
-					continue
-				}
-				q = append(q, n48.children[idx-1])
-			}
-
-		case nodeKind256:
-			n256 := (*node256)(n.pointer)
-
-			for i := 255; i >= 0; i-- {
-				if n256.children[i].pointer == nil || n256.children[i].tag == nodeKindLeaf {
-					continue
-				}
-
-				q = append(q, n256.children[i])
-			}
-
-		default:
-			panic("shouldn't be possible!")
-		}
-
-		depth += idx + 1
+		root = *child
+		n = *child
+		depth++
 	}
 
 	return root
